@@ -186,6 +186,18 @@ def inline_aliases(fn, max_rounds=3) -> List[str]:
                         uses.append(x)
                         if n not in use_nodes:
                             use_nodes.append(n)
+            if ok and not uses and not any(isinstance(x, ast.Name) and x.id == name and isinstance(x.ctx, ast.Load) for x in ast.walk(fn)):
+                # a pure value bound to a name nobody reads: the binding goes
+                target_stmt = d.node.ast
+                for stmt_list in _stmt_lists(fn):
+                    for k, s_ in enumerate(stmt_list):
+                        if s_ is target_stmt:
+                            p_ = ast.Pass()
+                            ast.copy_location(p_, s_)
+                            stmt_list[k] = p_
+                done.append(name)
+                changed = True
+                break
             if not ok or not uses:
                 continue
             # operands must not change between the definition and a use: a redefinition N reachable from the
